@@ -1509,7 +1509,10 @@ class Analyzer:
                 st.copy_facts((src[0], src[1]), place)
         if v[0] in ("sum", "diff", "rem"):
             v = v[1]
+        tnt = self.mag and self.is_num(t) and self.mag_tainted(st, v)
         self.store(st, place, t, v)
+        if tnt and not self.mag_bounded(st, v, deep=False):
+            st.taint = st.taint | {("v", place[0], place[1])}
 
     # ------------------------------------------------------------------ fix-point
     def analyze(self, body, entry=None, collect=True):
